@@ -4,6 +4,7 @@ package evaluator
 
 import (
 	"fmt"
+	"sync"
 	"time"
 
 	"github.com/karrick/goswarm"
@@ -67,3 +68,14 @@ func (module *CachingEvaluator) VerifAgeCache(d time.Duration) {
 		tv.Created = tv.Created.Add(-d)
 	})
 }
+
+// VerifRequest hands a request to the module the way the coordinator's forwarder does: on the module's own request
+// channel, served by its real main loop (started by the module's real Start on first use).
+func (module *CachingEvaluator) VerifRequest(request *protocol.EvaluatorRequest) {
+	once, _ := verifStarted.LoadOrStore(module, &sync.Once{})
+	once.(*sync.Once).Do(func() { _ = module.Start() })
+	module.GetCommunicationChannel() <- request
+}
+
+// verifStarted: which modules VerifRequest has started (the hook may not add a field to the module)
+var verifStarted sync.Map
